@@ -41,9 +41,80 @@ def _tree(modname):
     return _TREES[modname]
 
 
+_MUT = {"append", "extend", "insert", "pop", "remove", "sort", "reverse", "clear", "update", "setdefault", "popitem", "add", "discard"}
+
+
+def _is_cache_decorator(d):
+    t = ast.unparse(d.func if isinstance(d, ast.Call) else d)
+    return t.split(".")[-1] in ("lru_cache", "cache", "memoize", "memoized", "cached")
+
+
+def cached_mutables(ctx, rels):
+    """a memoised function hands the SAME object to every caller: when that object is a list / dict / set and a caller changes it
+    in place (reverses it, appends to it), the next caller -- and the next call with the same arguments -- sees the change"""
+    for rel in rels:
+        try:
+            m = ctx.p.module(rel)
+        except AnalysisError:
+            continue
+        cached = {}
+        for q, f in ctx.p.functions.items():
+            if f.module is m and isinstance(f.node, (ast.FunctionDef, ast.AsyncFunctionDef)) and any(_is_cache_decorator(d) for d in f.node.decorator_list):
+                rets = [r.value for r in ast.walk(f.node) if isinstance(r, ast.Return) and r.value is not None]
+                sd = {}
+                for st in ast.walk(f.node):
+                    if isinstance(st, ast.Assign) and len(st.targets) == 1 and isinstance(st.targets[0], ast.Name):
+                        sd.setdefault(st.targets[0].id, []).append(st.value)
+
+                def mutable(v, depth=0):
+                    if isinstance(v, (ast.List, ast.Dict, ast.Set, ast.ListComp, ast.DictComp, ast.SetComp)):
+                        return True
+                    if isinstance(v, ast.Call) and isinstance(v.func, ast.Name) and v.func.id in ("list", "dict", "set", "bytearray", "sorted"):
+                        return True
+                    if isinstance(v, ast.Name) and depth < 3:
+                        return any(mutable(x, depth + 1) for x in sd.get(v.id, []))
+                    return False
+                if rets and any(mutable(r) for r in rets):
+                    cached[f.node.name] = f
+        if not cached:
+            continue
+        for q, g in ctx.p.functions.items():
+            if g.module is not m or not isinstance(g.node, (ast.FunctionDef, ast.AsyncFunctionDef)):
+                continue
+            holders = {}
+            for st in ast.walk(g.node):
+                if isinstance(st, ast.Assign) and len(st.targets) == 1 and isinstance(st.targets[0], ast.Name) and isinstance(st.value, ast.Call):
+                    fn = st.value.func
+                    nm = fn.id if isinstance(fn, ast.Name) else (fn.attr if isinstance(fn, ast.Attribute) else None)
+                    if nm in cached:
+                        holders[st.targets[0].id] = nm
+            for c in ast.walk(g.node):
+                recv = None
+                if isinstance(c, ast.Call) and isinstance(c.func, ast.Attribute) and c.func.attr in _MUT:
+                    recv = c.func.value
+                elif isinstance(c, ast.Subscript) and isinstance(c.ctx, (ast.Store, ast.Del)):
+                    recv = c.value
+                if recv is None:
+                    continue
+                src = None
+                if isinstance(recv, ast.Name) and recv.id in holders:
+                    src = holders[recv.id]
+                elif isinstance(recv, ast.Call):
+                    fn = recv.func
+                    nm = fn.id if isinstance(fn, ast.Name) else (fn.attr if isinstance(fn, ast.Attribute) else None)
+                    if nm in cached:
+                        src = nm
+                if src is not None:
+                    ctx.bad("cached-mutable:%s:%s" % (src, g.node.name), "%s:%d" % (rel, c.lineno),
+                            "%s changes in place (`%s`) the object returned by the memoised function %s: the cache hands the changed object to the next call with the same arguments"
+                            % (q, ast.unparse(c)[:60], src))
+        ctx.ok("cached-mutables:%s" % rel, nontrivial=False)
+
+
 def call_tree(ctx, pid, ints=None, floor_note=True):
     rels = anchor_files(pid)
     ints = generic_ints(ints)
+    cached_mutables(ctx, rels)
     n_mod = 0
     for rel in rels:
         try:
